@@ -15,6 +15,13 @@ def map_cases(draw, ml):
     t = draw(gen.tree_descs(ml))
     sub = gen.tree_descs(4, max_depth=3, min_leaves=2)
     rests, rels = [], []
+    if draw(st.integers(0, 3)) == 0:
+        # stratum: a rest that differs from t by exactly one chosen local edit (every edit kind gets its share)
+        t, r, e = gen.targeted_near_miss(draw, ml)
+        if draw(st.booleans()):
+            t, r = r, t
+        extra = [t] if draw(st.booleans()) else []
+        return {'t': t, 'rests': extra + [r], 'rels': ['same'] * len(extra) + [f'near_miss:{e}'], 'cfg': draw(gen.configs())}
     for _ in range(draw(st.sampled_from([0, 1, 1, 2, 3]))):
         rel = draw(st.sampled_from(['same', 'suffix', 'suffix', 'dict_variant', 'suffix_variant', 'near_miss']))
         if rel == 'same':
